@@ -32,6 +32,15 @@ CHECKS["C07"] = ("exploration", "copy comparator over history-generated sources 
 CHECKS["C18"] = ("exploration", "runtime result validators for every search (membership, true distance under an f64 reference with a sound error bound, order, length where reachability is provable), kernel differential, quantiser bounds, batch vs single",
   "HNSW / quantized HNSW / engine vector index histories (insert, re-insert, remove, search, batch) over 12 dimensions, 4 metrics, k/ef edge values and extreme vectors; every returned list is validated clause by clause; every public distance kernel is compared with the f64 definition on a directed dims x magnitude matrix and random pairs; exact search must return the true k nearest; quantisers are held to their documented bounds.",
   "'returns k when k reachable' is only demanded where reachability follows from the public API (small insert-only indexes); approximate recall is not demanded.", "DESIGN.md §4 C18")
+CHECKS["C03"] = ("exploration", "commit-decision checker over recorded begin/write/commit/abort/gc histories (manager, session and threaded level), gc-independence by triple execution",
+  "Histories on the real TransactionManager are recorded at the API boundary with one logical clock; every commit decision is recomputed from the history (refused iff an overlapping transaction that committed first wrote one of its entities), every history is run with gc stripped / as generated / after every operation and must give identical decisions, commit epochs must be unique and increasing. All operation-level interleavings for <= 3 transactions x 2 entities are enumerated on every run, larger shapes sampled; the same shapes are replayed through real sessions and on 2-4 threads; the begin gap is driven deterministically through the txmgr.begin yield hook.",
+  "Abstract write sets at manager level; at session level write sets are whatever the engine registers (currently nothing: finding C03-F2). Threaded runs sample schedules.", "DESIGN.md §4 C03")
+CHECKS["C04"] = ("exploration", "per-commit serializability rule + dependency-graph (ww/wr/rw) acyclicity checker over recorded Serializable histories",
+  "Same history machinery with record_read at IsolationLevel::Serializable: each commit is judged by the rule of the statement and, independently, the direct serialization graph of the committed transactions is built by the checker and must be acyclic (cycle printed as witness). Write-skew / lost-update / read-only-anomaly shapes in every interleaving and level mix, exhaustive small families, random beyond.",
+  "Abstract reads/writes only: the engine's operators never record reads, so end-to-end serializability of queries is not observable.", "DESIGN.md §4 C04")
+CHECKS["C20"] = ("exploration", "directed two-thread preemption at hooked yield points + chaos-delay multi-thread stress, judged by post-quiescence invariant walkers, conservation counters and a progress watchdog",
+  "Every hooked window between two critical sections of an operation (node/label/property/edge updates, triple insert/remove, buffer allocation, transaction begin) is exercised deterministically: thread A is parked in the window, thread B runs a conflicting operation to completion, A resumes, then every derived structure is compared with the primary data. 4-16 thread stress mixes with seeded delays at the same sites check id uniqueness, lost acknowledged creations, index agreement, commit-epoch uniqueness/monotonicity, grant conservation, panics and deadlocks.",
+  "One preemption per scenario at hooked sites only; other schedules are sampled; data races/UB are left to the TSan/Miri overlays (thorough).", "DESIGN.md §4 C20")
 NOT_YET = {}
 
 def main():
